@@ -581,8 +581,11 @@ def simpleOp (l : Line) : M Unit := do
                          else restoredDeadline now se
             let wantR := if !cfg.withRefresh then maxI64 else if sr == maxI64 then refAfterWrite cfg now k none .normal
                          else restoredDeadline now sr
-            if e != wantE then fail s!"C19: key {k} loaded with expiration {e}, saved {se} (expected {wantE}) at load time {now}"
-            if r != wantR then fail s!"C19: key {k} loaded with refresh time {r}, saved {sr} (expected {wantR}) at load time {now}"
+            -- (a remaining lifetime of 2^63 ns or more is not representable as a time.Duration: known finding F20 is matched on this marker)
+            let wrapE := if se != maxI64 && se - now > maxI64 then " [remaining lifetime not representable as a duration]" else ""
+            let wrapR := if sr != maxI64 && sr - now > maxI64 then " [remaining lifetime not representable as a duration]" else ""
+            if e != wantE then fail s!"C19: key {k} loaded with expiration {e}, saved {se} (expected {wantE}) at load time {now}{wrapE}"
+            if r != wantR then fail s!"C19: key {k} loaded with refresh time {r}, saved {sr} (expected {wantR}) at load time {now}{wrapR}"
         let keys := present.map (·.1)
         if keys.eraseDups.length != keys.length then fail "C19: duplicate key in loaded cache"
         let wl := (loadable.map (·.2.2.1)).foldl (· + ·) 0
